@@ -108,6 +108,7 @@ type GenesisOptions struct {
 	RtMaxNodesPerEnt   uint16   // MaxNodes scheduling constraint per entity (0 = none)
 	RtMinPool          uint16   // MinPoolSize scheduling constraint (default = group size)
 	DebondingInterval  uint64   // staking debonding interval in epochs (default 1)
+	RtFunded           bool     // account 1 holds a 700-unit delegation to the runtime's own account (needed for runtime governance)
 
 }
 
@@ -393,6 +394,12 @@ func Genesis(k *Keys, o GenesisOptions) (*genesis.Document, error) {
 		st.Ledger[e0].Escrow.Active.TotalShares = q(o.Escrow[0] + 500)
 		st.Delegations[e0][Addr(k.Accounts[0])] = &staking.Delegation{Shares: q(500)}
 		total += 500
+	}
+	if o.Runtime && o.RtFunded && len(k.Accounts) > 1 {
+		ra := staking.NewRuntimeAddress(RuntimeID())
+		st.Ledger[ra] = &staking.Account{Escrow: staking.EscrowAccount{Active: staking.SharePool{Balance: q(700), TotalShares: q(700)}}}
+		st.Delegations[ra] = map[staking.Address]*staking.Delegation{Addr(k.Accounts[1]): {Shares: q(700)}}
+		total += 700
 	}
 	st.TotalSupply = q(total)
 	if o.ZeroThresholds {
